@@ -218,8 +218,14 @@ def run(chk, w):
                         good_pred = (c["pred"] == "eq" and cv == 128) or (c["pred"] in ("uge", "sge") and cv == 128) or (c["pred"] in ("ugt", "sgt") and cv == 127)
                         if evicts and good_pred and all(f.dominates(e, i) or True for e in evicts):
                             ok = True
+        trimmed = None if ok else _trimmed_before_unlock(P, f, i)
         if ok:
             chk.ok("C06-BOUND", 1, {"push": i.loc(), "bound": const})
+        elif trimmed is True:
+            chk.ok("C06-BOUND", 1, {"push": i.loc(), "bound": "trimmed to 128 after the append, before the queue mutex is released, in every caller"})
+        elif trimmed:
+            chk.violation("C06-BOUND", trimmed.fn.name, "push-without-trim", trimmed.loc(),
+                          "an entry appended by %s (line %d) can stay in the queue without the bound being enforced before %s releases the queue mutex / returns: that queue can grow beyond 128 entries" % (f.name, i.line, trimmed.fn.name))
         else:
             chk.violation("C06-BOUND", f.name, "push-without-eviction-test", i.loc(),
                           "append to an uplink queue is not preceded by 'length == 128 -> drop oldest' (found bound %s)" % const)
@@ -368,3 +374,49 @@ def _impure_sources(P, f, cond, mparam, depth=0):
 
     walk(cond)
     return sorted(set(bad))
+
+
+def _trimmers(P):
+    """functions that enforce the bound afterwards: a loop 'while (g_queue_get_length(q) > 128) pop oldest' (or >= 129)"""
+    out = set()
+    for g in P.repo_functions():
+        for b in g.blocks:
+            t = b.term
+            if t.op == "br" and "cond" in t.d and b.id in g.loops():
+                c = g.resolve(t["cond"])
+                if c is not None and c.op == "icmp":
+                    call = g.resolve(rules.strip_casts(g, c["a"]))
+                    cv = rules.const_of(g, c["b"])
+                    if call is not None and call.op == "call" and call.callee == "g_queue_get_length" and \
+                            ((c["pred"] in ("ugt", "sgt") and cv == 128) or (c["pred"] in ("uge", "sge") and cv == 129)):
+                        body = g.loops()[b.id]
+                        pops = [x for x in g.calls() if x.bb.id in body and (x.callee == "g_queue_pop_head" or
+                                (x.callee in P.functions and any(y.callee == "g_queue_pop_head" for y in P.functions[x.callee].calls())))]
+                        if pops:
+                            out.add(g.name)
+    return out
+
+
+def _trimmed_before_unlock(P, f, push):
+    """True when every caller (one or two levels up) that holds the queue mutex trims the queue after the append and before it unlocks;
+    otherwise the instruction where an untrimmed append leaves the critical section"""
+    from .. import pending, locks
+    tr = _trimmers(P)
+    if not tr:
+        return push
+    pd = pending.Pending(P, lambda fn, x: x.id == push.id and fn is f, lambda fn, x: x.op == "call" and x.callee in tr)
+
+    def check(fn, depth):
+        unl = [c for c in fn.calls() if c.callee in locks.REL]
+        if unl or depth >= 2 or not P.callers().get(fn.name):
+            bad = pd.leaks_at(fn, leaves=(lambda x: x.op == "call" and x.callee in locks.REL) if unl else None)
+            if bad is None:
+                return fn.blocks[0].insts[0]
+            return bad[0] if bad else None
+        for cf in {cf.name: cf for cf, ci in P.callers().get(fn.name, [])}.values():
+            r = check(cf, depth + 1)
+            if r is not None:
+                return r
+        return None
+    r = check(f, 0)
+    return True if r is None else r
